@@ -93,7 +93,23 @@ Terms == {<<>>, <<59>>, <<10>>, <<13, 10>>, <<32, 59>>}
 Units3 == {h \o <<32>> \o d1 \o s \o d2 \o t : h \in {<<65, 58, 66>>, <<42, 73, 68, 78, 63>>}, d1 \in Datas, s \in DSeps, d2 \in Datas, t \in Terms}
 UnitsBig == {h \o <<32>> \o d1 \o <<44>> \o d2 \o <<44>> \o d3 \o t : h \in {<<58, 83, 58, 84, 63>>}, d1 \in Datas, d2 \in Datas, d3 \in Datas, t \in {<<10>>}}
 
-Cases == {<<"lhdr", x>> : x \in Headers} \cup {<<"ldec", x>> : x \in Decimals} \cup {<<"lsuf", x>> : x \in Suffixes \cup RelaxedSuffixes}
+(* very long tokens: runs of 255, 256, 257 and 512 characters in every place where the grammar repeats a character class *)
+(* (a counter of one byte does not count them)                                                                        *)
+Run(n, ch) == [i \in 1..n |-> ch]
+VL == {255, 256, 257, 512}
+VLDecimals == {Run(n, 55) : n \in VL} \cup {<<49, 46>> \o Run(n, 48) \o <<49>> : n \in VL}
+              \cup {<<49, 69>> \o Run(n, 48) \o <<51>> : n \in VL} \cup {<<45>> \o Run(256, 48) \o <<46, 53, 32, 101, 32, 45>> \o Run(256, 48)}
+VLNondecs  == {<<35, 72>> \o Run(n, 70) : n \in VL} \cup {<<35, 66>> \o Run(256, 49), <<35, 81>> \o Run(256, 55)}
+VLStrings  == {<<34>> \o Run(n, 97) \o <<34>> : n \in VL} \cup {<<39>> \o Run(256, 34) \o <<39>>}
+VLHeaders  == {Run(n, 65) \o <<63>> : n \in VL} \cup {<<58>> \o Run(256, 90) \o <<58>> \o Run(256, 57 + 8)}
+VLExprs    == {<<40>> \o Run(n, 49) \o <<41>> : n \in VL}
+VLBlocks   == {<<35, 51, 50, 53, 54>> \o Run(256, 120), <<35, 51, 53, 49, 50>> \o Run(512, 0)}
+VLSuffixes == {Run(256, 86), <<86, 47>> \o Run(256, 83)}
+
+Cases == {<<"ldec", x>> : x \in VLDecimals} \cup {<<"lndc", x>> : x \in VLNondecs} \cup {<<"lstr", x>> : x \in VLStrings}
+         \cup {<<"lhdr", x>> : x \in VLHeaders} \cup {<<"lexp", x>> : x \in VLExprs} \cup {<<"lblk", x>> : x \in VLBlocks}
+         \cup {<<"lsuf", x>> : x \in VLSuffixes}
+         \cup {<<"lhdr", x>> : x \in Headers} \cup {<<"ldec", x>> : x \in Decimals} \cup {<<"lsuf", x>> : x \in Suffixes \cup RelaxedSuffixes}
          \cup {<<"lndc", x>> : x \in Nondecs} \cup {<<"lstr", x>> : x \in Strings} \cup {<<"lblk", x>> : x \in Blocks}
          \cup {<<"lexp", x>> : x \in Exprs} \cup {<<"lunit", x>> : x \in Units3 \cup (IF Big THEN UnitsBig ELSE {})}
 Contexts == {<<>>, <<32>>, <<44>>, <<59>>, <<10>>, <<65>>, <<49>>, <<34>>, <<46>>, <<63>>}
